@@ -121,6 +121,8 @@ class PandasCfg(ModuleCfg):
         M[("value", "exists")] = Prim(lambda v: f"(v_exists {v})", False, "bool")
         M[("value", "is_absolute")] = Prim(lambda v: f"(v_abs {v})", False, "bool")
         F["path_is_image"] = Prim(lambda v: f"(v_image {v})", False, "bool")
+        # visions.types.file.path_exists(p): p.exists() with OSError read as "does not exist" (shape checked in generate())
+        F["path_exists"] = Prim(lambda v: f"(v_exists {v})", False, "bool")
         for py, fld in [("is_bool_dtype", "is_bool"), ("is_categorical_dtype", "is_categorical"), ("is_complex_dtype", "is_complex"),
                         ("is_unsigned_integer_dtype", "is_unsigned_integer"), ("is_datetime64_any_dtype", "is_datetime64_any"), ("is_float_dtype", "is_float"),
                         ("is_integer_dtype", "is_integer"), ("is_numeric_dtype", "is_numeric"), ("is_object_dtype", "is_object"), ("is_string_dtype", "is_string"),
@@ -201,7 +203,24 @@ def attr_lists(tree):
     return out
 
 
+PATH_EXISTS_SHAPE = "def path_exists(path: Any) -> bool:\n    try:\n        return path.exists()\n    except OSError:\n        return False"
+
+
+def check_path_exists(repo):
+    """the helper the File / Image membership tests call is the primitive [v_exists] only while it has exactly this body"""
+    tree = ast.parse(open(f"{repo}/src/visions/types/file.py").read())
+    fn = [n for n in tree.body if isinstance(n, ast.FunctionDef) and n.name == "path_exists"]
+    if not fn:
+        return          # the membership tests then call p.exists() directly (primitive ("value", "exists")) or the translator refuses
+    f = fn[0]
+    if f.body and isinstance(f.body[0], ast.Expr) and isinstance(f.body[0].value, ast.Constant):
+        f.body = f.body[1:]          # docstring
+    if ast.unparse(f) != PATH_EXISTS_SHAPE:
+        raise TransError("visions/types/file.py: path_exists is not `try: return path.exists() / except OSError: return False`:\n" + ast.unparse(f))
+
+
 def generate(repo):
+    check_path_exists(repo)
     cfg = PandasCfg()
     tr = PandasTranslator(cfg)
     utils = ast.parse(open(f"{repo}/{UTILS}").read())
